@@ -422,7 +422,23 @@ func extractModel(e *Exec, asserts []*Term) (*ReplayFile, error) {
 	for _, p := range pts {
 		want = append(want, p.idx, e.st.raw(OpSelect, arrElem(p.arr.w), 0, "", 0, 0, p.arr, p.idx))
 	}
-	v, vals, errs := e.sol.Check(asserts, want)
+	// prefer small values for length-like (64-bit) inputs: counterexamples with
+	// short buffers replay more faithfully against real I/O layers
+	var hints []*Term
+	for _, bv := range bvVars {
+		if bv.w == 64 {
+			hints = append(hints, e.st.Cmp(OpUle, bv, e.st.Const(64, 64)))
+		}
+	}
+	var v Verdict
+	var vals []uint64
+	var errs string
+	if len(hints) > 0 {
+		v, vals, errs = e.sol.Check(append(append([]*Term(nil), asserts...), hints...), want)
+	}
+	if len(hints) == 0 || v != Sat {
+		v, vals, errs = e.sol.Check(asserts, want)
+	}
 	if v != Sat || len(vals) != len(want) {
 		return nil, fmt.Errorf("model query: %v %s", v, errs)
 	}
